@@ -16,7 +16,7 @@ from __future__ import annotations
 
 import ast
 
-from .. import vg
+from .. import nf, vg
 from ..core import Ctx
 from ..envs import EnvA
 from ..model import AnalysisError
@@ -59,9 +59,22 @@ def run(ctx: Ctx):
     saves = [n for n in ast.walk(sv.node) if isinstance(n, ast.Call) and ast.unparse(n.func) in ("np.savez", "np.savez_compressed")]
     ok = ok and len(saves) == 2 and all(any(k.arg is None for k in c.keywords) for c in saves)
     ctx.ob("C19.a", "save_tensordict_to_npz:all-keys", ok, sv.loc, "every (key, value) of tensordict.items() is written under its own key", construct="save_tensordict_to_npz:keys")
-    src = ast.unparse(ld.node)
-    ok = "x_dict = dict(x)" in src.replace("x = np.load(filename)\n", "x = np.load(filename)\n") and "TensorDict(x_dict, batch_size=batch_size)" in src and ".shape[0]" in src
-    ctx.ob("C19.a", "load_npz_to_tensordict:all-keys", ok, ld.loc, "TensorDict built from dict(np.load(file)) -- all keys, batch size = leading axis", construct="load_npz_to_tensordict:keys")
+    itl = vg.Interp(ctx.repo, None, inline_policy=lambda f, a: False)
+    frl = itl.run_function(ld)
+    ok, why = False, "does not return a TensorDict built from the loaded archive"
+    if isinstance(frl.ret, vg.TD):
+        tdl = frl.ret
+        srcs = list(tdl.opaque_updates)
+        full = len(srcs) == 1 and not tdl.cells and nf._fn(srcs[0]) == "dict" and nf._fn(srcs[0].args[1]) in ("numpy.load", "np.load") and \
+            srcs[0].args[1].args[1].op == "param"
+        bs = getattr(tdl, "meta", {}).get("batch_size")
+        lead = False
+        if full and isinstance(bs, vg.S) and bs.op == "sub" and vg.is_const(bs.args[1], 0) and bs.args[0].op == "attr" and bs.args[0].args[1] == "shape":
+            arr = bs.args[0].args[0]
+            lead = arr.op == "sub" and arr.args[0] is srcs[0]
+        ok = full and lead
+        why = f"TensorDict(dict(np.load(file))) with every key of the archive: {full}; batch size = leading axis of one of its arrays: {lead}"
+    ctx.ob("C19.a", "load_npz_to_tensordict:all-keys", ok, ld.loc, why, construct="load_npz_to_tensordict:keys")
     nodeco = not ld.node.decorator_list
     ctx.ob("C19.a", "load_npz_to_tensordict:fresh-object", nodeco, ld.loc,
            "every call builds a new TensorDict (no memoisation): callers such as CVRPEnv.load_data modify the result in place" if nodeco else
@@ -106,9 +119,26 @@ def run(ctx: Ctx):
         ctx.sample({"writer": f"generate_{wname}_data", "env": cname, "file_keys": sorted(written), "needed": sorted(need | read_by_loader)})
     # CVRP capacity normalisation pairs with the un-normalised demand the writer emits
     cv = EnvA(ctx.repo, T.ALL_ENVS["CVRPEnv"], "CVRPEnv").resolve("load_data")
-    src = ast.unparse(cv.node)
-    ok = "td_load.set('demand', td_load['demand'] / td_load['capacity'][:, None])" in src
-    ctx.ob("C19.b", "CVRPEnv.load_data:normalisation", ok, cv.loc, "demand := demand / capacity (writer stores raw integer demands and the capacity)", construct="CVRPEnv.load_data:normalise")
+    ctx.fn(cv)
+    itc = vg.Interp(ctx.repo, cv.cls, inline_policy=lambda f, a: False)
+    frc = itc.run_function(cv)
+    sets = [e for e in itc.events if e.kind == "methcall" and e.data[1] == "set" and e.data[2] and vg.is_const(e.data[2][0], "demand") and not e.conds]
+    ok = False
+    if len(sets) == 1 and len(sets[0].data[2]) == 2:
+        base, val = sets[0].data[0], sets[0].data[2][1]
+        pv = nf.poly(val)
+        mon = pv.monos()
+        if len(mon) == 1 and mon[0][0] == 1 and len(mon[0][1]) == 2:
+            ats = [a for a, _ in mon[0][1]]
+            cb = nf.norm(base)
+            dem = [a for a in ats if a.op == "sub" and vg.is_const(a.args[1], "demand") and nf.norm(a.args[0]) is cb]
+            rec = [a for a in ats if a.op == "recip"]
+            if len(dem) == 1 and len(rec) == 1:
+                den = nf.strip(rec[0].args[0])
+                while den.op == "sub" and not vg.is_const(den.args[1], "capacity"):
+                    den = den.args[0]          # capacity[:, None]: a broadcasting view
+                ok = den.op == "sub" and vg.is_const(den.args[1], "capacity") and nf.norm(den.args[0]) is cb and frc.ret is base
+    ctx.ob("C19.b", "CVRPEnv.load_data:normalisation", ok, cv.loc, "the loaded file's demand := demand / capacity, once, and that same TensorDict is returned (writer stores raw integer demands and the capacity)", construct="CVRPEnv.load_data:normalise")
     # ---------------- c: FJSP text format
     w = ctx.repo.get_function(FP, "write_one")
     r = ctx.repo.get_function(FP, "read")
@@ -161,26 +191,61 @@ def run(ctx: Ctx):
     gs, ss = base.methods["__getstate__"], base.methods["__setstate__"]
     ctx.fn(gs)
     ctx.fn(ss)
-    g_src, s_src = ast.unparse(gs.node), ast.unparse(ss.node)
-    V = _copy_var(gs.node)
-    P = ss.params()[1]
-    ok = V is not None and f"{V}['rng'] = {V}['rng'].get_state()" in g_src and f"return {V}" in g_src and f"self.__dict__.update({P})" in s_src and f"self.rng.set_state({P}['rng'])" in s_src
-    ctx.ob("C19.d", "RL4COEnvBase:getstate/setstate", ok, gs.loc, "rng pickled as get_state() and restored with set_state(); all other attributes copied", construct="RL4COEnvBase:pickle-pair")
+    def is_dict_copy(x):
+        return isinstance(x, vg.S) and x.op == "meth" and x.args[1] == "copy" and len(x.args) == 2 and vg.show(x.args[0], 2) == "self.__dict__"
+
+    def updates_dict(it, par):
+        return any(e.kind == "methcall" and e.data[1] == "update" and vg.show(e.data[0], 2) == "self.__dict__" and len(e.data[2]) == 1 and e.data[2][0] is par and not e.conds for e in it.events)
+
+    itg = vg.Interp(ctx.repo, base, inline_policy=lambda f, a: False)
+    rg = itg.run_function(gs).ret
+    g_ok = isinstance(rg, vg.S) and rg.op == "store" and is_dict_copy(rg.args[0]) and vg.is_const(rg.args[1], "rng") and rg.args[2].op == "meth" and rg.args[2].args[1] == "get_state" \
+        and rg.args[2].args[0].op == "sub" and rg.args[2].args[0].args[0] is rg.args[0] and vg.is_const(rg.args[2].args[0].args[1], "rng")
+    its = vg.Interp(ctx.repo, base, inline_policy=lambda f, a: False)
+    its.run_function(ss)
+    par = vg.mk("param", ss.params()[1])
+    rng = its.selfattrs.get("rng")
+    restored = [e for e in its.events if e.kind == "methcall" and e.data[1] == "set_state" and e.data[0] is rng and len(e.data[2]) == 1 and e.data[2][0].op == "sub" and e.data[2][0].args[0] is par
+                and vg.is_const(e.data[2][0].args[1], "rng") and not e.conds]
+    s_ok = updates_dict(its, par) and isinstance(rng, vg.S) and rng.op == "call" and bool(restored)
+    ctx.ob("C19.d", "RL4COEnvBase:getstate/setstate", g_ok and s_ok, gs.loc, f"rng pickled as state['rng'].get_state() in a copy of __dict__: {g_ok}; restored into a fresh generator with set_state(state['rng']) after __dict__.update(state): {s_ok}", construct="RL4COEnvBase:pickle-pair")
     rb = ctx.repo.get_class("rl4co/models/rl/reinforce/baselines.py", "RolloutBaseline")
     gs, ss = rb.methods["__getstate__"], rb.methods["__setstate__"]
     ctx.fn(gs)
-    g_src, s_src = ast.unparse(gs.node), ast.unparse(ss.node)
+    ctx.fn(ss)
+    itg = vg.Interp(ctx.repo, rb, inline_policy=lambda f, a: False)
+    frg = itg.run_function(gs)
     V = _copy_var(gs.node)
-    P = ss.params()[1]
-    ok = V is not None and f"del {V}['dataset']" in g_src and f"return {V}" in g_src and f"self.__dict__.update({P})" in s_src and "self.dataset = None" in s_src
-    ctx.ob("C19.d", "RolloutBaseline:getstate/setstate", ok, gs.loc, "dataset dropped on pickling and reset to None on restore (re-created in setup); policy copy and bl_vals kept", construct="RolloutBaseline:pickle-pair")
+    dels = [t for n in ast.walk(gs.node) if isinstance(n, ast.Delete) for t in n.targets if isinstance(t, ast.Subscript) and isinstance(t.value, ast.Name) and t.value.id == V
+            and isinstance(t.slice, ast.Constant)]
+    g_ok = is_dict_copy(frg.ret) and {t.slice.value for t in dels} == {"dataset"}
+    its = vg.Interp(ctx.repo, rb, inline_policy=lambda f, a: False)
+    its.run_function(ss)
+    par = vg.mk("param", ss.params()[1])
+    s_ok = updates_dict(its, par) and vg.is_const(its.selfattrs.get("dataset"), None)
+    ctx.ob("C19.d", "RolloutBaseline:getstate/setstate", g_ok and s_ok, gs.loc, f"only the dataset is dropped from a copy of __dict__ on pickling: {g_ok}; __dict__.update(state) and dataset reset to None on restore (re-created in setup): {s_ok}", construct="RolloutBaseline:pickle-pair")
     # ---------------- e: checkpoint prefix
     lc = ctx.repo.get_function("rl4co/models/rl/reinforce/reinforce.py", "REINFORCE.load_from_checkpoint")
     ctx.fn(lc)
-    src = ast.unparse(lc.node)
-    ok = "if 'baseline' in k" in src and "k.replace('baseline.', '', 1)" in src and "loaded.baseline.load_state_dict(state_dict)" in src and src.index("loaded.setup()") < src.index("load_state_dict") \
-        and "loaded.post_setup_hook()" in src and src.index("loaded.post_setup_hook()") < src.index("load_state_dict")
-    ctx.ob("C19.e", "REINFORCE.load_from_checkpoint:prefix", ok, lc.loc, "baseline.* entries are selected, the 'baseline.' prefix is stripped once, after setup() and post_setup_hook() created the baseline modules that receive the state", construct="REINFORCE.load_from_checkpoint:prefix")
+    itk = vg.Interp(ctx.repo, lc.cls, inline_policy=lambda f, a: False)
+    frk = itk.run_function(lc)
+    loaded = frk.locals.get("loaded")
+    order = [(i, e) for i, e in enumerate(itk.events) if e.kind == "methcall"]
+    i_setup = [i for i, e in order if e.data[1] == "setup" and e.data[0] is loaded]
+    i_hook = [i for i, e in order if e.data[1] == "post_setup_hook" and e.data[0] is loaded]
+    loads = [(i, e) for i, e in order if e.data[1] == "load_state_dict" and e.data[0].op == "attr" and e.data[0].args[0] is loaded and e.data[0].args[1] == "baseline"]
+    ok, why = False, "loaded.baseline.load_state_dict(...) not found"
+    if len(loads) == 1 and loads[0][1].data[2]:
+        i_load, ev = loads[0]
+        arg = ev.data[2][0]
+        nodes = list(vg.walk(arg)) if isinstance(arg, vg.S) else []
+        strip_once = any(n.op == "meth" and n.args[1] == "replace" and len(n.args) == 5 and vg.is_const(n.args[2], "baseline.") and vg.is_const(n.args[3], "") and vg.is_const(n.args[4], 1) for n in nodes)
+        select = any(n.op == "in" and isinstance(n.args[0], vg.S) and n.args[0].op == "const" and n.args[0].args[0] in ("baseline", "baseline.") for n in nodes)
+        from_ckpt = any(n.op == "sub" and vg.is_const(n.args[1], "state_dict") and nf._fn(n.args[0]) == "torch.load" for n in nodes)
+        before = bool(i_setup) and bool(i_hook) and max(i_setup) < i_load and max(i_hook) < i_load
+        ok = strip_once and select and from_ckpt and before
+        why = f"baseline.* entries of the checkpoint's state_dict are selected: {select and from_ckpt}; the 'baseline.' prefix is stripped once: {strip_once}; after setup() and post_setup_hook() created the modules that receive the state: {before}"
+    ctx.ob("C19.e", "REINFORCE.load_from_checkpoint:prefix", ok, lc.loc, why, construct="REINFORCE.load_from_checkpoint:prefix")
 
 
 def _copy_var(fn_node):
